@@ -1,5 +1,6 @@
 """C16 replay: names <-> object paths, at the ObjectPath level and end to end through writer and reader."""
 import io
+import os
 import zlib
 
 import numpy as np
@@ -56,6 +57,18 @@ def replay_path_batch(case):
                                  for i, (nm, _) in enumerate(chans)])
             _check_file(TdmsFile.read(io.BytesIO(buf.getvalue())), chans, "end-to-end", fails)
             n += len(chans)
+            # the same file with channel data kept in memory-mapped temporary files (names must stay names)
+            import tempfile
+            import shutil
+            from .common import ROOT
+            mm = tempfile.mkdtemp(prefix="c16-", dir=os.path.join(ROOT, ".work"))
+            try:
+                _check_file(TdmsFile.read(io.BytesIO(buf.getvalue()), memmap_dir=mm), chans, "end-to-end-memmap", fails)
+                with TdmsFile.open(io.BytesIO(buf.getvalue()), memmap_dir=mm) as fo:
+                    _check_file(fo, chans[:10], "end-to-end-memmap-lazy", fails, count=False)
+            finally:
+                shutil.rmtree(mm, ignore_errors=True)
+            n += len(chans)
             # a streaming producer: ONE GroupObject and ONE ChannelObject, renamed and refilled for every segment
             sub = chans[:10]
             buf2 = io.BytesIO()
@@ -79,7 +92,7 @@ def replay_path_batch(case):
     return {"n": n, "keys": keys, "fails": fails, "validated": len(items)}
 
 
-def _check_file(f, chans, level, fails):
+def _check_file(f, chans, level, fails, count=True):
     for i, (nm, path) in enumerate(chans):
         probs = []
         try:
@@ -95,9 +108,9 @@ def _check_file(f, chans, level, fails):
         if probs:
             fails.append(({"kind": "path", "level": level}, {"names": nm, "path": path, "problems": probs}))
     total = sum(len(g.channels()) for g in f.groups())
-    if total != len(chans):
+    if count and total != len(chans):
         fails.append(({"kind": "path", "level": level + "-count"}, {"expected_channels": len(chans), "observed": total}))
-    if len({nm[0] for nm, _ in chans}) > len(f.groups()):
+    if count and len({nm[0] for nm, _ in chans}) > len(f.groups()):
         fails.append(({"kind": "path", "level": level + "-groups"}, {"observed_groups": len(f.groups())}))
 
 
